@@ -124,6 +124,9 @@ class Hang(Exception):
     pass
 
 
+HUNG: list = []   # non-empty once a call did not return: further hang-prone calls are skipped (each costs a time-out)
+
+
 def cres(f, call):
     try:
         v = call()
@@ -132,6 +135,7 @@ def cres(f, call):
     except IndexError:
         return "(Err EIndex)", "IndexError"
     except Hang:
+        HUNG.append(1)
         return "(Err ERuntime)", "no-return"
     return f"(Ok {f(v)})", "ok"
 
@@ -455,6 +459,8 @@ def gen_cases(out, tier):
                 continue
             if res > 0 and len(coords) == 2 and coords[0] != coords[1] and 5.0 / res > 100:
                 continue
+            if res <= 0 and HUNG:
+                continue
             t, kind = cres(cpts, lambda: with_timeout(3, lambda: densify([tuple(p) for p in coords], res)))
             add("densify-edge:" + kind, f"CDensify {cpts(coords)} {cq(F(res))} {t}", (coords, res))
 
@@ -462,7 +468,7 @@ def gen_cases(out, tier):
     n = 250 if tier == "quick" else 2500
     for i in range(n):
         g, res = gen_geom(rng)
-        if rng.random() < 0.1:
+        if rng.random() < 0.1 and not HUNG:
             res = rng.choice([0.0, -2.0])
         if res > 0 and not shadow_geom(g, res):
             escapes += 1
@@ -780,7 +786,31 @@ def p_roundtrip(src, g, dst):
     return worst <= 1e-6, f"max relative round-trip error {worst:.3e}"
 
 
-PREDICATES = {"densify": p_densify, "segmented": p_segmented, "retain": p_retain, "nonpositive": p_nonpositive,
+def p_transformer(src, dst, pts):
+    """CRS.transformer_to_crs on numpy arrays: every point exactly as pyproj maps that point; a point for
+    which pyproj returns NaN in either coordinate comes back as (NaN, NaN) (crs.py NaN harmonisation)"""
+    import numpy as np
+    from odc.geo.crs import CRS
+
+    f = CRS(src).transformer_to_crs(CRS(dst))
+    xs = np.array([float(p[0]) for p in pts])
+    ys = np.array([float(p[1]) for p in pts])
+    rx, ry = f(xs.copy(), ys.copy())
+    tr = pyproj_tr(src, dst)
+    for p, a, b in zip(pts, rx.tolist(), ry.tolist()):
+        x, y = tr.transform(float(p[0]), float(p[1]))
+        if math.isnan(x) or math.isnan(y):
+            if not (math.isnan(a) and math.isnan(b)):
+                return False, f"point {p}: pyproj gives {(x, y)}, transformer gives {(a, b)} (expected NaN, NaN)"
+        elif (x, y) != (a, b):
+            return False, f"point {p}: pyproj gives {(x, y)}, transformer gives {(a, b)}"
+    sx, sy = f(float(pts[0][0]), float(pts[0][1]))
+    x, y = tr.transform(float(pts[0][0]), float(pts[0][1]))
+    same = (sx == x or (math.isnan(sx) and math.isnan(x))) and (sy == y or (math.isnan(sy) and math.isnan(y)))
+    return same, f"scalar call on {pts[0]}: {(sx, sy)} vs pyproj {(x, y)}"
+
+
+PREDICATES = {"transformer": p_transformer, "densify": p_densify, "segmented": p_segmented, "retain": p_retain, "nonpositive": p_nonpositive,
               "to_crs": p_tocrs, "roundtrip": p_roundtrip}
 
 
@@ -790,6 +820,8 @@ def search(out, tier):
     worst_rt = [0.0]
 
     def run(name, *args):
+        if name in found and name in ("nonpositive", "to_crs", "segmented", "densify") and "did not return" in found[name]:
+            return        # every further hang would cost another time-out
         try:
             ok, detail = PREDICATES[name](*args)
         except Exception as e:  # noqa: BLE001 - inside the property's domain nothing may raise
@@ -799,7 +831,7 @@ def search(out, tier):
         if name == "roundtrip" and "error" in detail:
             worst_rt[0] = max(worst_rt[0], float(detail.split()[-1]))
         if not ok and name not in found:
-            found[name] = True
+            found[name] = detail
             out.violation(f"c07:{name}", f"{name}{core.short(args, 400)}: {detail}",
                           {"predicate": name, "args": list(args), "observed": detail})
 
@@ -851,6 +883,18 @@ def search(out, tier):
         run("to_crs", src, g, dst, res)
         if src and dst and tier != "quick" or (src and dst and i % 5 == 0):
             run("roundtrip", src, g, dst)
+    # the transformer itself (numpy path, NaN harmonisation); 4326 -> 4258 is a no-op pipeline that lets a NaN through per axis
+    nan = float("nan")
+    for src, dst in [("EPSG:4326", "EPSG:4258"), ("EPSG:4326", "EPSG:3857"), ("EPSG:3857", "EPSG:4326"),
+                     ("EPSG:32633", "EPSG:3035"), ("EPSG:6933", "epsg:4326")]:
+        x0, y0, u = AREA[src]
+        for _ in range(4 if tier == "quick" else 40):
+            pts = [[x0 + rng.uniform(-4, 4) * u, y0 + rng.uniform(-4, 4) * u] for _ in range(rng.randint(1, 6))]
+            k = rng.randrange(len(pts) + 1)
+            pts.insert(k, rng.choice([[nan, y0], [x0, nan], [nan, nan]]))
+            if rng.random() < 0.5:
+                pts.append([x0, nan])
+            run("transformer", src, dst, pts)
     # "auto" on zero-area geometries must terminate and equal the plain conversion
     for g in (["Line", [[1441792.0, 6553600.0], [1441795.0, 6553604.0]]],
               ["Ring", [[1441792.0, 6553600.0], [1441795.0, 6553604.0], [1441792.0, 6553700.0], [1441792.0, 6553600.0]]],
